@@ -358,6 +358,73 @@ func callerDefers(f *ast.File, helper string) string {
 	return release
 }
 
+// closeFnDeferredByCallers: every function of f that calls `<recv>.<helper>(…)` binds the first result to a name and, after
+// the error check, has `defer <name>()` (the closure the helper built from closeFns runs when the caller returns).
+func closeFnDeferredByCallers(f *ast.File, helper string) bool {
+	n, good := 0, 0
+	for _, d := range f.Decls {
+		fd, ok := d.(*ast.FuncDecl)
+		if !ok || fd.Body == nil || fd.Name.Name == helper {
+			continue
+		}
+		for i, st := range fd.Body.List {
+			as, ok := st.(*ast.AssignStmt)
+			if !ok || len(as.Rhs) != 1 || len(as.Lhs) != 2 {
+				continue
+			}
+			c, ok := as.Rhs[0].(*ast.CallExpr)
+			if !ok {
+				continue
+			}
+			sel, ok := c.Fun.(*ast.SelectorExpr)
+			if !ok || sel.Sel.Name != helper {
+				continue
+			}
+			n++
+			name := exprStr(as.Lhs[0])
+			for _, later := range fd.Body.List[i+1:] {
+				if df, ok := later.(*ast.DeferStmt); ok && exprStr(df.Call.Fun) == name && len(df.Call.Args) == 0 {
+					good++
+					break
+				}
+				if ifs, ok := later.(*ast.IfStmt); ok && exprStr(ifs.Cond) == "err != nil" {
+					continue
+				}
+				break
+			}
+		}
+	}
+	// any other use of the helper (not `x, err := …helper(…)`) is unknown
+	total := 0
+	ast.Inspect(f, func(nd ast.Node) bool {
+		if c, ok := nd.(*ast.CallExpr); ok {
+			if s, ok := c.Fun.(*ast.SelectorExpr); ok && s.Sel.Name == helper {
+				total++
+			}
+		}
+		return true
+	})
+	return n > 0 && n == good && total == n
+}
+
+// pingDefersCancel: net/client/client.go Client.Ping binds the cancel closure AsyncPing returns and defers it.
+func pingDefersCancel(repo string) bool {
+	_, f := parseFile(repo, "net/client/client.go")
+	fd := funcDecl(f, "Client", "Ping")
+	name := ""
+	for _, st := range fd.Body.List {
+		if as, ok := st.(*ast.AssignStmt); ok && len(as.Rhs) == 1 && len(as.Lhs) == 2 {
+			if c, ok := as.Rhs[0].(*ast.CallExpr); ok && strings.HasSuffix(exprStr(c.Fun), ".AsyncPing") {
+				name = exprStr(as.Lhs[0])
+			}
+		}
+		if df, ok := st.(*ast.DeferStmt); ok && name != "" && exprStr(df.Call.Fun) == name {
+			return true
+		}
+	}
+	return false
+}
+
 // mutexMapShape recognises udp/client/mutexmap.go (Lock inserts `m.ma[key] = e`, counts; Unlock decrements and
 // deletes at zero) and that every `msgIDMutex.Lock(x)` in conn.go is `l := …` followed by `defer l.Unlock()`.
 func mutexMapShape(repo string) tsInsertion {
@@ -464,6 +531,17 @@ func genTableShape(g *gen, repo string) {
 				scanFuncForTables(rel, f, fd, fset, &ins, &lks)
 			}
 		}
+		// a closure appended to closeFns removes the entry only if every caller of the function defers the returned closure
+		for i := start; i < len(ins); i++ {
+			for k, r := range ins[i].removal {
+				if strings.HasPrefix(r, "closeFns:") {
+					helper := ins[i].fn[strings.LastIndex(ins[i].fn, ".")+1:]
+					if !closeFnDeferredByCallers(f, helper) {
+						ins[i].removal[k] = "closeFns-not-deferred-by-callers"
+					}
+				}
+			}
+		}
 		// helper-made insertions whose removal is deferred by every caller
 		for i := start; i < len(ins); i++ {
 			if len(ins[i].removal) == 0 && strings.HasSuffix(ins[i].fn, ".acquireEndpoint") {
@@ -513,6 +591,8 @@ func genTableShape(g *gen, repo string) {
 		}
 		fmt.Fprintf(&b, "  ⟨%s, %s, %s, %s⟩%s\n", leanStr(l.file), leanStr(l.fn), leanStr(l.op), leanStr(l.key), sep)
 	}
-	b.WriteString("]\n\nend CoapVerif.Generated.TableShape\n")
+	b.WriteString("]\n\n")
+	fmt.Fprintf(&b, "/-- net/client/client.go: Client.Ping defers the cancel closure that AsyncPing returns (read from the AST) -/\ndef pingDefersCancel : Bool := %v\n", pingDefersCancel(repo))
+	b.WriteString("\nend CoapVerif.Generated.TableShape\n")
 	g.write("TableShape.lean", b.String())
 }
